@@ -2060,6 +2060,7 @@ func (m *Machine) processQueue() Result {
 
 	// execute the queue
 	m.queueRunning.Store(false)
+drain:
 	for m.queueLen.Load() > 0 {
 		m.queueRunning.Store(true)
 
@@ -2133,6 +2134,13 @@ func (m *Machine) processQueue() Result {
 	m.queueProcessing.Store(false)
 	m.queueRunning.Store(false)
 	simhook.At("pq.released", m.id)
+
+	// a caller may have queued a mutation and lost the race for the lock after
+	// the last length check above, so re-check to never leave it stranded
+	if m.queueLen.Load() > 0 && !m.disposing.Load() &&
+		m.queueProcessing.CompareAndSwap(false, true) {
+		goto drain
+	}
 
 	// tracers
 	m.tracersMx.RLock()
